@@ -221,6 +221,13 @@ Fixpoint last_only (x : nat) (l : list nat) : bool :=
   | a :: r => negb (Nat.eqb a x) && last_only x r
   end.
 
+(* KnownGap of finding C07-F1, decidable: x is written last in every bases list up to c and is last in every
+   linearisation CPython computes below c (those are the lists merged for c and its ancestors). *)
+Definition ext_last_only (t : tbl) (x c : nat) : bool :=
+  forallb (fun d => last_only x (cbases (nth_cls t d))) (seq 0 (S c)) &&
+  forallb (fun d => match cpython_mro t d with Ok m => last_only x m | _ => true end) (seq 0 c).
+Definition ext_not_last (t : tbl) (x c : nat) : bool := negb (ext_last_only t x c).
+
 (* ------------------------------------------------------------------------------------------------
    Inherited aliases whose target member is itself an alias (an import inside the class body)
    ------------------------------------------------------------------------------------------------ *)
